@@ -496,7 +496,7 @@ func main() {
 		}
 		// (b) a single failing call
 		for i, c := range calls {
-			if c.name == "fsync" || c.name == "fdatasync" {
+			if (c.name == "fsync" || c.name == "fdatasync") && os.Getenv("VERIF_NO_FSYNC_FAULTS") != "" {
 				continue
 			}
 			for _, errno := range []string{"ENOSPC", "EIO"} {
